@@ -6,7 +6,8 @@ Import TlsPolicy Wire.
 
 Definition today : tables :=
   {| tb_auth := auth_sets; tb_ctl := ctl_sites; tb_enc := enc_sites; tb_calls := call_keys;
-     tb_lits := msg_lits; tb_writes := clear_writes; tb_flows := marshal_flows; tb_crw := crypto_rw_shape |}.
+     tb_lits := msg_lits; tb_writes := clear_writes; tb_flows := marshal_flows; tb_crw := crypto_rw_shape;
+     tb_sniff := sniff_sites; tb_listeners := listener_calls |}.
 
 Inductive case :=
 (* real CheckAndEnableTLSServerConnWithTimeout on a connection whose peer sends byte b first.
@@ -16,6 +17,9 @@ Inductive case :=
 (* a running frps, first byte b followed by a probe tail.
    cls: 0 = TLS handshake answered, 1 = a protocol message answered, 2 = closed without any answer *)
 | CSniffSys (force : bool) (b : Z) (cls : Z)
+(* the same through another listener of the running frps: lk 1 = websocket (raw websocket client, then
+   the bytes), 2 = kcp.  On kcp a close is not observable: "no answer within the wait" counts as class 2 *)
+| CSniffSysL (lk : Z) (force : bool) (b : Z) (cls : Z)
 (* ServerTransportConfig.Complete + NewServerTLSConfig on real files *)
 | CServerPolicy (force_in : bool) (cert key ca : string) (pair_ok read_ok : bool)
                 (force_out : bool) (ok : bool) (require_verify has_cas : bool) (ncert : Z)
@@ -76,6 +80,16 @@ Definition check_case (c : case) : Z :=
   | CSniffEof force err =>
       if beq (Sniff.is_err (fst (Sniff.sniff_stream force []))) err then 0 else 5
   | CSniffSys force b cls => if sys_expect force b =? cls then 0 else 6
+  | CSniffSysL lk force b cls =>
+      let l := if lk =? 1 then LkWebsocket else LkKcp in
+      match sniff_force today force l with
+      | ForceIs f =>
+          (* kcp has no close handshake: the refusal of a NewVisitorConn is written and the session dropped at
+             once, the answer may be lost; for that one probe "answered" and "no answer" are both accepted *)
+          if sys_expect f b =? cls then 0
+          else if (lk =? 2) && (b =? 118) && (sys_expect f b =? 1) && (cls =? 2) then 0 else 7
+      | _ => 8
+      end
   | CServerPolicy force_in cert key ca pair_ok read_ok force_out ok require_verify has_cas ncert =>
       let c' := server_complete {| st_tcp_mux := None; st_force := force_in; st_tls := mk_tls_files cert key ca "" |} in
       if negb (beq (st_force c') force_out) then 10
@@ -108,6 +122,8 @@ Definition check_case (c : case) : Z :=
   | CWire cfg hist observed observed_public up =>
       let w := wire today cfg hist in
       if existsb has_bad w then 50
+      else if negb (match sniff_force today (w_force cfg) (listener_of cfg) with
+                    | ForceIs f => beq f (w_force cfg) | NoSniff => true | ForceBad => false end) then 56
       else if negb (beq (accepted cfg) up) then 51
       else if negb (subset observed (visible_all nobody w)) then 52
       else if up && negb (subset (visible_sure_all nobody w) observed) then 53
@@ -128,6 +144,7 @@ Definition C05_holds (c : case) : bool :=
       (negb (conn_tls cfg) || match observed_public with [] => true | _ => false end) &&
       (negb (existsb is_secret observed_public) || (w_token_empty cfg && negb (conn_tls cfg)))
   | CSniffSys force b cls => negb (force && (cls =? 1))
+  | CSniffSysL _ force b cls => negb (force && (cls =? 1))
   | _ => true
   end.
 
